@@ -263,6 +263,29 @@ theorem die_ranges_list_nonempty_partial (u : UnitCtx) (secs : Sections) (attrs 
     ∀ it, Ev.item it ∈ evs → it.b < it.e ∧ it.b < minTombstone u.cfg.addrSize :=
   dieRangesCore_list_items u secs attrs evs h
 
+/-- `die_ranges` / `unit_ranges` return a value or an error for every DIE, unit and section
+contents (no panic, no non-termination) -/
+theorem die_ranges_total (u : UnitCtx) (secs : Sections) (attrs : Attrs) :
+    (dieRangesCore u secs attrs).Normal :=
+  dieRangesCore_normal u secs attrs
+
+/-- everything `attr_locations` yields (location lists reached from a `DW_AT_location`-like
+attribute, `.dwo` dispatch included) is non-empty and begins below the tombstones -/
+theorem attr_locations_nonempty (u : UnitCtx) (secs : Sections) (v : AttrVal) (evs : List (Ev Item))
+    (h : attrLocations u secs v = .ok (some evs)) :
+    ∀ it, Ev.item it ∈ evs → it.b < it.e ∧ it.b < minTombstone u.cfg.addrSize :=
+  attrLocations_items u secs v evs h
+
+/-- a split unit inherits `low_pc` and `addr_base` from its skeleton unit, and the ranges base only
+in GNU split DWARF (version < 5) -/
+theorem copy_relocated_rules (self other : UnitCtx) :
+    (copyRelocated self other).lowPc = other.lowPc ∧
+    (copyRelocated self other).addrBase = other.addrBase ∧
+    (copyRelocated self other).loclistsBase = self.loclistsBase ∧
+    (copyRelocated self other).rnglistsBase =
+      (if self.cfg.version < 5 then other.rnglistsBase else self.rnglistsBase) :=
+  ⟨rfl, rfl, rfl, rfl⟩
+
 /-! ## totality and termination within the input length -/
 
 /-- **The raw iterator terminates**: for every byte string, at most `len` calls of `next()` return
